@@ -101,6 +101,9 @@ Proof.
   destruct a as [|x a]; [split; auto|]. simpl in E. lia.
 Qed.
 
+Lemma map_const_repeat {A B} (c : B) (l : list A) : map (fun _ => c) l = repeat c (length l).
+Proof. induction l; simpl; auto. f_equal; auto. Qed.
+
 Section Items.
 Context {R E : Type}.
 Local Notation item := (nat * outcome R E)%type.
